@@ -436,3 +436,154 @@ def build_archive(zones):
 
 def remove_archive(tmp):
     shutil.rmtree(tmp, ignore_errors=True)
+
+
+# ------------------------------------------------------------------ selections per tier
+
+INTERESTING = [
+    "Europe/Dublin", "Africa/Casablanca", "Africa/El_Aaiun", "Europe/London", "Europe/Moscow",
+    "Australia/Lord_Howe", "Pacific/Kiritimati", "Pacific/Apia", "America/New_York", "America/St_Johns",
+    "Asia/Kolkata", "Asia/Kathmandu", "Africa/Monrovia", "America/Caracas", "Antarctica/Troll",
+    "Asia/Pyongyang", "Europe/Amsterdam", "Africa/Windhoek", "Europe/Prague", "America/Sao_Paulo",
+    "Australia/Sydney", "Pacific/Chatham", "Asia/Tehran", "America/Havana", "Europe/Lisbon",
+    "Atlantic/Azores", "Antarctica/Casey", "America/Godthab", "Asia/Gaza", "Pacific/Tongatapu",
+    "America/Juneau", "Asia/Manila", "Europe/Paris", "Europe/Berlin", "Pacific/Kwajalein",
+    "America/Anchorage", "Asia/Dhaka", "Europe/Riga", "Asia/Tokyo", "UTC", "EST5EDT", "Etc/GMT+12",
+]
+
+
+def pick_zones(ctx, tag, quick_n=60):
+    zs = system_zones()
+    if ctx.tier == "thorough" or ctx.escalated:
+        return zs
+    byname = {}
+    for z in zs:
+        for n in z[1]:
+            byname[n] = z
+    pick, seen = [], set()
+    for n in INTERESTING:
+        z = byname.get(n)
+        if z is not None and z[0] not in seen:
+            seen.add(z[0]); pick.append(z)
+    rest = [z for z in zs if z[0] not in seen]
+    ctx.subrng(tag).shuffle(rest)
+    return pick + rest[:max(0, quick_n - len(pick))]
+
+
+def synthetic_set(ctx, tag, quick_n=40, thorough_n=400):
+    """[(name, bytes)]: the named shapes plus seeded random tables (WF and not)"""
+    out = [("syn:" + k, v) for k, v in synthetic_shapes().items()]
+    rng = ctx.subrng(tag)
+    n = ctx.budget(quick_n, thorough_n)
+    for i in range(n):
+        wf = i % 5 != 4
+        out.append(("rnd%s:%d" % ("" if wf else "-nonwf", i), random_table(rng, wf=wf)))
+    return out
+
+
+def model_zone_lines(ctx, data, ups, wps, extra=()):
+    """[load, fromutc, wall] model lines for one stream (+ extra ops)"""
+    hx = hexs(data)
+    reqs = ["tzfile.load %s" % hx, "tzfile.fromutc %s %s" % (hx, ilist(ups)), "tzfile.wall %s %s" % (hx, ilist(wps))]
+    reqs += ["%s %s %s" % (op, hx, ilist(xs)) if xs is not None else "%s %s" % (op, hx) for op, xs in extra]
+    return reqs
+
+
+def diff_lines(points, impl_line, model_line):
+    """positions where two `ok a b c …` lines differ"""
+    es, gs = impl_line.split(), model_line.split()
+    if len(es) != len(gs) or es[0] != gs[0]:
+        return [("*", impl_line[:200], model_line[:200])]
+    return [(p, a, b) for p, a, b in zip(points, es[1:], gs[1:]) if a != b]
+
+
+# ------------------------------------------------------------------ non-tzfile zones (C04/C05)
+
+TZSTRS = [
+    "EST5EDT,M3.2.0,M11.1.0", "EST5EDT", "AEST-10AEDT,M10.1.0,M4.1.0/3", "CET-1CEST,M3.5.0,M10.5.0/3",
+    "GMT0BST,M3.5.0/1,M10.5.0", "NZST-12NZDT,M9.5.0,M4.1.0/3", "LHST-10:30LHDT-11,M10.1.0,M4.1.0",
+    "IST-5:30", "UTC0", "NST3:30NDT,M3.2.0/0:01,M11.1.0/0:01", "AAA-1BBB-3,M3.5.0/2,M10.5.0/4",
+    "WART4WARST,J1/0,J365/25",
+]
+NEG_SAVING_TZSTRS = ["IST-1GMT0,M10.5.0,M3.5.0/1"]       # D-C05r
+LOCAL_TZS = ["EST5EDT,M3.2.0,M11.1.0", "AEST-10AEDT,M10.1.0,M4.1.0/3", "CET-1CEST,M3.5.0,M10.5.0/3", "UTC0", "IST-5:30"]
+YEARS = [1971, 1999, 2000, 2003, 2020, 2021, 2037]
+
+VTZ = """BEGIN:VCALENDAR
+BEGIN:VTIMEZONE
+TZID:US-Eastern
+BEGIN:STANDARD
+DTSTART:19671029T020000
+RRULE:FREQ=YEARLY;BYDAY=-1SU;BYMONTH=10
+TZOFFSETFROM:-0400
+TZOFFSETTO:-0500
+TZNAME:EST
+END:STANDARD
+BEGIN:DAYLIGHT
+DTSTART:19870405T020000
+RRULE:FREQ=YEARLY;BYDAY=1SU;BYMONTH=4
+TZOFFSETFROM:-0500
+TZOFFSETTO:-0400
+TZNAME:EDT
+END:DAYLIGHT
+END:VTIMEZONE
+END:VCALENDAR
+"""
+
+
+def range_zone_params(z, years):
+    """(std, dst, hasdst, [y,on,off,…]) of a tzrangebase instance, transitions as naive standard-time seconds"""
+    std = int(z._std_offset.total_seconds()); dst = int(z._dst_offset.total_seconds())
+    tbl = []
+    for y in years:
+        tr = z.transitions(y)
+        if tr is not None:
+            tbl += [y, ts(tr[0]), ts(tr[1])]
+    return std, dst, int(bool(z.hasdst)), tbl
+
+
+def range_probes(z, years):
+    """UTC and wall probes around both yearly transitions of a range zone (and the year ends)"""
+    std = int(z._std_offset.total_seconds()); dst = int(z._dst_offset.total_seconds())
+    sv = abs(dst - std)
+    ds = {0}
+    for x in DELTAS + (sv, sv + 1, sv - 1):
+        ds.add(x); ds.add(-x)
+    ups, wps = set(), set()
+    for y in years:
+        tr = z.transitions(y) if z.hasdst else None
+        marks = [ts(datetime.datetime(y, 7, 1))]
+        if tr is not None:
+            marks += [ts(tr[0]), ts(tr[1])]
+        for m in marks:
+            for x in ds:
+                ups.add(m - std + x); ups.add(m - dst + x)
+                wps.add(m + x); wps.add(m + (dst - std) + x)
+    return sorted(ups), sorted(wps)
+
+
+def year_edge_probes(years, offs):
+    out = set()
+    for y in years:
+        b = ts(datetime.datetime(y, 1, 1))
+        for o in offs:
+            for x in (-1, 0, 1, -3600, 3600):
+                out.add(b - o + x); out.add(b + x)
+    return sorted(out)
+
+
+def near_year_edge(z, years):
+    """a yearly transition of the range zone lies within |offset| + |saving| of 1 January (either side)"""
+    if not z.hasdst:
+        return False
+    std = int(z._std_offset.total_seconds()); dst = int(z._dst_offset.total_seconds())
+    m = max(abs(std), abs(dst)) + abs(dst - std)
+    for y in years:
+        tr = z.transitions(y)
+        if tr is None:
+            continue
+        for x in tr:
+            for yy in (y, y + 1):
+                if abs(ts(x) - ts(datetime.datetime(yy, 1, 1))) <= m:
+                    return True
+    return False
